@@ -38,6 +38,8 @@ if [ "$prop" = C08 ]; then
   # as ./check C08: baton search, then the ThreadSanitizer tier on the C library
   rc=0; "$work/target/release/b3sim" run --prop C08 --tier "$tier" --part sim "$@" || rc=$?
   [ $rc -ne 0 ] && exit $rc
+  ( cd "$work/sim" && CARGO_PROFILE_RELEASE_DEBUG_ASSERTIONS=false CARGO_PROFILE_RELEASE_OVERFLOW_CHECKS=false cargo build --offline --release --no-default-features --features par --target-dir "$work/target_lean" >"$work/build_lean.log" 2>&1 ) || { echo "BUILD FAILED (lean)"; tail -5 "$work/build_lean.log"; exit 2; }
+  "$work/target_lean/release/b3sim" run --prop C08 --tier "$tier" --part lean --scale 0.3 "$@" || exit $?
   python3 /verif/tools/tsan_tier.py C08 "${VERIF_SEED:-1}" "$tier" --repo "$repo"
   exit $?
 fi
@@ -52,7 +54,7 @@ if [ "$prop" = C18 ] && [ "$tier" = quick ]; then
   # as ./check C18 quick: baton search, then the small Miri batch
   rc=0; "$work/target/release/b3sim" run --prop C18 --tier quick --part sim "$@" || rc=$?
   [ $rc -ne 0 ] && exit $rc
-  ( cd "$work/sim" && cargo build --offline --release --no-default-features --target-dir "$work/target_lean" >"$work/build_lean.log" 2>&1 ) || { echo "BUILD FAILED (lean)"; tail -5 "$work/build_lean.log"; exit 2; }
+  ( cd "$work/sim" && CARGO_PROFILE_RELEASE_DEBUG_ASSERTIONS=false CARGO_PROFILE_RELEASE_OVERFLOW_CHECKS=false cargo build --offline --release --no-default-features --features par --target-dir "$work/target_lean" >"$work/build_lean.log" 2>&1 ) || { echo "BUILD FAILED (lean)"; tail -5 "$work/build_lean.log"; exit 2; }
   "$work/target_lean/release/b3sim" run --prop C18 --tier quick --part lean --scale 0.3 "$@" || exit $?
   python3 /verif/tools/miri_tier.py C18 "${VERIF_SEED:-1}" --tier quick --repo "$repo"; rc=$?
   rm -rf "/tmp/miri_tier.$(basename "$repo")"
@@ -63,7 +65,7 @@ case "$prop" in
     # as ./check: default build, then the lean build (blake3 without rayon, mmap, zeroize, serde) on a third of the runs
     rc=0; "$work/target/release/b3sim" run --prop "$prop" --tier "$tier" --part default "$@" || rc=$?
     [ $rc -ne 0 ] && exit $rc
-    ( cd "$work/sim" && cargo build --offline --release --no-default-features --target-dir "$work/target_lean" >"$work/build_lean.log" 2>&1 ) || { echo "BUILD FAILED (lean)"; tail -5 "$work/build_lean.log"; exit 2; }
+    ( cd "$work/sim" && CARGO_PROFILE_RELEASE_DEBUG_ASSERTIONS=false CARGO_PROFILE_RELEASE_OVERFLOW_CHECKS=false cargo build --offline --release --no-default-features --features par --target-dir "$work/target_lean" >"$work/build_lean.log" 2>&1 ) || { echo "BUILD FAILED (lean)"; tail -5 "$work/build_lean.log"; exit 2; }
     "$work/target_lean/release/b3sim" run --prop "$prop" --tier "$tier" --part lean --scale 0.3 "$@"
     exit $?
     ;;
